@@ -334,7 +334,16 @@ impl TransactionBuilder {
 
     if let Some(mut deficit) = total.checked_sub(self.outputs.last().unwrap().value) {
       while deficit > Amount::ZERO {
-        let additional_fee = self.fee_rate.fee(Self::ADDITIONAL_INPUT_VBYTES);
+        // a key path input weighs 57.5 vbytes, so whether it adds 57 or 58
+        // vbytes depends on the number of inputs already present
+        let additional_fee = self
+          .fee_rate
+          .fee(Self::estimate_vbytes_with(
+            self.inputs.len() + 1,
+            &self.outputs,
+          ))
+          .checked_sub(self.estimate_fee())
+          .unwrap_or(self.fee_rate.fee(Self::ADDITIONAL_INPUT_VBYTES));
 
         let needed = deficit
           .checked_add(additional_fee)
